@@ -326,9 +326,32 @@ class _Ser:
         self.__name__ = name
 
     def dumps(self, o, **kw):
+        if _has_unpicklable(o):
+            raise TypeError('cannot pickle %r object' % type(o).__name__)
         if has_sym(o):
-            return SymBytes([('wrap', 'P:' + self.name, SymStr(pieces_repr(o)))])
+            # the options given to the serializer are part of what it produces (protocol=2 bytes differ from the default's)
+            opts = ','.join('%s=%r' % kv for kv in sorted(kw.items()) if kv[0] != 'byref')
+            return SymBytes([('wrap', 'P:' + self.name + ('[%s]' % opts if opts else ''), SymStr(pieces_repr(o)))])
         return self.real.dumps(o, **kw)
+
+
+class Unpicklable:
+    """an argument no serializer accepts (dumps raises TypeError)"""
+
+    def __reduce_ex__(self, p):
+        raise TypeError('cannot pickle Unpicklable object')
+
+
+def _has_unpicklable(o, d=0):
+    if isinstance(o, Unpicklable):
+        return True
+    if d > 4:
+        return False
+    if isinstance(o, dict):
+        return any(_has_unpicklable(k, d + 1) or _has_unpicklable(v, d + 1) for k, v in o.items())
+    if isinstance(o, (list, tuple, set, frozenset)):
+        return any(_has_unpicklable(x, d + 1) for x in o)
+    return False
 
 
 def sym_import(name, *a, **k):
